@@ -678,8 +678,14 @@ macro_rules! first_of_order {
             let init = iter.next().unwrap().expect_number()?;
             iter.try_fold(init, |a, b_value| {
                 let b = b_value.expect_number()?;
-                let oprand = upcast_oprands((a, b));
-                Ok(if a $cmp b {oprand.lhs()} else {oprand.rhs()})
+                // only inexactness is contagious: an exact result keeps its own representation
+                // ((max 1/2 3) is the integer 3, not the ratio 3/1)
+                Ok(match upcast_oprands((a, b)) {
+                    oprand @ NumberBinaryOperand::Real(..) => {
+                        if a $cmp b {oprand.lhs()} else {oprand.rhs()}
+                    }
+                    _ => if a $cmp b {a} else {b},
+                })
             }).map(|num| Value::Number(num))
             }
         }
